@@ -85,6 +85,27 @@ func draw(t *rapid.T) Case {
 			}
 		}
 	}
+	if gen.OneIn(t, 10, "p1repeat") {
+		// P1 spells a member name twice (scalar values), at the root or in a nested object: the RFC
+		// leaves the meaning of P1 open then, but not what becomes of P2's deletions
+		var objs []*ref.V
+		p1.Walk(func(x *ref.V) {
+			if x.K == ref.KObj && len(x.Keys) > 0 {
+				objs = append(objs, x)
+			}
+		})
+		if len(objs) > 0 {
+			o := objs[gen.Uniform(t, 0, len(objs)-1, "ro")]
+			i := gen.Uniform(t, 0, len(o.Keys)-1, "ri")
+			if o.Vals[i].K != ref.KObj && o.Vals[i].K != ref.KArr {
+				o.Keys = append(o.Keys, o.Keys[i])
+				o.Vals = append(o.Vals, c.Scalar().Draw(t, "rv"))
+				if p2.K == ref.KObj && o == p1 && rapid.Bool().Draw(t, "rdel") {
+					p2.Set(rapid.SampledFrom([]string{"zq", "b", "", "a"}).Draw(t, "rk"), ref.Null())
+				}
+			}
+		}
+	}
 	p1t, p2t := gen.Texts(t, p1, p2, false, "sp")
 	return Case{D: d.Text(false), P1: p1t, P2: p2t}
 }
@@ -95,6 +116,9 @@ func check(c Case) ev.Verdict {
 	p2, e2 := ref.Parse([]byte(c.P2))
 	if e0 != nil || e1 != nil || e2 != nil {
 		return ev.Excluded("not well-formed")
+	}
+	if d.K != ref.KNull && p1.K == ref.KObj && p2.K == ref.KObj && !d.HasDup() && p1.HasDup() && !p2.HasDup() {
+		return checkRepeated(c, p1, p2)
 	}
 	if d.K == ref.KNull || p1.K != ref.KObj || d.HasDup() || p1.HasDup() || p2.HasDup() {
 		return ev.Excluded("null document, non-object first patch or duplicate names")
@@ -167,9 +191,73 @@ func check(c Case) ev.Verdict {
 	return v
 }
 
+// last returns the last member of o called k and how many there are.
+func last(o *ref.V, k string) (v *ref.V, n int) {
+	for i, name := range o.Keys {
+		if name == k {
+			v, n = o.Vals[i], n+1
+		}
+	}
+	return
+}
+
+// nullsSurvive: every null member of P2 is a null member of the combined patch (a later value
+// overrides an earlier one, and deletions survive), followed into objects wherever P1 and the
+// combined patch hold exactly one object of that name.
+func nullsSurvive(p1, p2, comb *ref.V, path string) error {
+	for i, k := range p2.Keys {
+		v2 := p2.Vals[i]
+		cv, cn := last(comb, k)
+		switch {
+		case v2.K == ref.KNull:
+			if cn == 0 || cv.K != ref.KNull {
+				return fmt.Errorf("P2 deletes %s/%s but the combined patch does not", path, k)
+			}
+		case v2.K == ref.KObj:
+			v1, n1 := last(p1, k)
+			if n1 == 1 && v1.K == ref.KObj && cn == 1 && cv.K == ref.KObj {
+				if err := nullsSurvive(v1, v2, cv, path+"/"+k); err != nil {
+					return err
+				}
+			}
+		}
+	}
+	return nil
+}
+
+// checkRepeated: P1 repeats a member name. What P1 means is then open, and nothing is compared
+// with a reference merge; but the call must succeed, give well-formed JSON, and keep every
+// deletion of P2 - that clause of the property does not depend on P1.
+func checkRepeated(c Case, p1, p2 *ref.V) ev.Verdict {
+	var out []byte
+	var err error
+	if p := ev.Safe(func() { out, err = jp.MergeMergePatches([]byte(c.P1), []byte(c.P2)) }); p != nil {
+		return ev.Verdict{Err: p}
+	}
+	v := ev.Verdict{Classes: []string{"p1-repeats-a-name"}}
+	if err != nil {
+		v.Err = fmt.Errorf("MergeMergePatches failed: %v", err)
+		return v
+	}
+	comb, perr := ref.Parse(out)
+	if perr != nil || comb.K != ref.KObj {
+		v.Err = fmt.Errorf("combined patch not a well-formed object: %q", out)
+		return v
+	}
+	hasNull := false
+	for _, x := range p2.Vals {
+		hasNull = hasNull || x.K == ref.KNull
+	}
+	v.NonTrivial = hasNull
+	if e := nullsSurvive(p1, p2, comb, ""); e != nil {
+		v.Err = fmt.Errorf("%v\n combined: %s", e, out)
+	}
+	return v
+}
+
 var unit = ev.Unit[Case]{
 	Name: "compose",
-	Rule: "D any non-null JSON x P1 object (mutation of D or independent) x P2 = mutation of P1, independent object or non-object, nulls sprinkled at every depth of both; pairs violating the compatibility condition are excluded (counted); oracle: reference MergePatch(D, combined) = MergePatch(MergePatch(D,P1),P2), the same through the library's MergePatch, and combined = P2 when P2 is not an object; non-trivial = P1 and P2 share a member path below the first level where one of them holds null",
+	Rule: "D any non-null JSON x P1 object (mutation of D or independent) x P2 = mutation of P1, independent object or non-object, nulls sprinkled at every depth of both; pairs violating the compatibility condition are excluded (counted); oracle: reference MergePatch(D, combined) = MergePatch(MergePatch(D,P1),P2), the same through the library's MergePatch, and combined = P2 when P2 is not an object; non-trivial = P1 and P2 share a member path below the first level where one of them holds null; one P1 in ten spells a scalar member twice: no reference merge then, only that the call succeeds with a well-formed object in which every null member of P2 is still a null member (class p1-repeats-a-name)",
 	Draw: draw, Check: check,
 }
 
